@@ -6,15 +6,57 @@ TRUST = ("TLC explores the bounded model exhaustively; the binding to the code i
          "cases into the implementation of the current /repo tree and by validating recorded executions with TLC; "
          "concrete values/layouts are seeded samples; Python, black, pytest are used as they are")
 
+CORE = "TLA+ spec of the per-call-site machine (spec/ISCore.tla, MC_Core.tla) model-checked by TLC; TLC-emitted behaviours replayed into the real code"
+
 CHECKS = {
+    "C03": dict(
+        category="model_checking", technique=CORE,
+        text="every session case of the per-site model is executed; the rewritten module must parse, keep its "
+             "snapshot() calls and be byte-identical outside the call parentheses (independent tokenizer pass); the "
+             "model states which arguments may change at all (C04inert)",
+        design_ref="DESIGN.md section 5 C03"),
+    "C05": dict(
+        category="model_checking", technique=CORE,
+        text="TLC checks the documented category algebra as invariants on the bounded model (one and two sites); the "
+             "categories reported per call site and the argument written back by the real code are compared with the "
+             "model for every emitted (program, approved set)",
+        design_ref="DESIGN.md section 5 C05"),
     "C06": dict(
-        category="model_checking",
-        technique="TLA+ spec (ISCore/MC_Core) model-checked by TLC; TLC-emitted cases replayed into the real code",
+        category="model_checking", technique=CORE,
         text="TLC checks on the bounded per-site model that without flags every comparison answers like the plain "
              "value and that a second operation raises; every emitted behaviour (operation x previous source x "
              "program) is executed against the implementation and each result compared with the model's",
-        design_ref="DESIGN.md section 5 C06",
-    ),
+        design_ref="DESIGN.md section 5 C06"),
+    "C07": dict(
+        category="model_checking", technique=CORE,
+        text="invariant `wrong or missing snapshot <=> failed test` checked by TLC for every program and approved "
+             "set; replayed in-process (fixture counters) and as real pytest sessions of the plugin (per-test outcome, "
+             "exit status)",
+        design_ref="DESIGN.md section 5 C07"),
+    "C08": dict(
+        category="model_checking", technique=CORE + "; histories of sessions",
+        text="TLC checks the fixed-point invariants (all-then-nothing, same-set-twice) and emits histories of two "
+             "sessions; they are replayed as chained real runs, the second run must report nothing to create/fix/trim, "
+             "show no non-empty diff and change no byte",
+        design_ref="DESIGN.md section 5 C08"),
+    "C09": dict(
+        category="model_checking", technique=CORE + "; histories of sessions",
+        text="TLC proves confluence of single-category approvals for all bounded programs without aborting asserts "
+             "and emits every order for programs with >=2 pending categories; chained real runs must end in the same "
+             "syntax tree as the all-at-once run",
+        design_ref="DESIGN.md section 5 C09"),
+    "C14": dict(
+        category="model_checking", technique=CORE + "; two-site interleavings",
+        text="TLC checks per-site independence on all interleavings of two sites over two tests; replay with "
+             "adversarial placements of the calls (same line, same code object, closures, helpers, module level) and "
+             "re-evaluation with a changed argument",
+        design_ref="DESIGN.md section 5 C14"),
+    "C17": dict(
+        category="model_checking", technique=CORE + "; mutable carriers",
+        text="the model records values (not references); every emitted run is executed with the compared values "
+             "living in one mutable object that is mutated after each comparison, and what is written must equal the "
+             "model's prediction",
+        design_ref="DESIGN.md section 5 C17"),
 }
 
 NOT_YET = {
